@@ -14,7 +14,7 @@ ENGINE = 'E2 explicit-state BFS over process histories, differential against a f
 RULE = ("breadth-first search over process histories: file(S_i) = build and write specification i on fresh objects "
         "(pool engineered to collide in every per-process cache, with different record lengths: 0.0/-0.0/0, IDENT 1/1.0/True, same names with other "
         "origins and copy numbers, ZONE vs PARAMETER record type, equal instants in different zones), rewrite of the "
-        "last built objects, mutate-and-rewrite (origin reference of a zone, a channel, the frame and the NO-FORMAT object; attribute value, index channel units, data, data of another per-row shape, data of another dtype, window, objects added after the first write), enter/leave "
+        "last built objects, mutate-and-rewrite (origin reference of a zone, a channel, the frame and the NO-FORMAT object; attribute value, index channel units, data, data of another per-row shape, data of another dtype, window, chunk sizes, a user value equal to the one derived before, objects added after the first write), enter/leave "
         "high-compatibility mode; the process-global state is deliberately NOT reset between events of a history; "
         "oracle: the bytes of the last write equal those of a fresh interpreter that builds the final specification "
         "alone; non-trivial = state whose last event wrote a file that was compared")
